@@ -80,9 +80,9 @@ Definition mk (f : fname) (item new : Z) (p : predfn) (s1 s2 : seqin) (st en : o
 (* (member 1 '(1 2) :test-not 'eql) => type-error, the language says (2): member has its own keyword loop *)
 Definition w_member_test_not := mk FMember 1 0 P0 (SList [1;2]) SNil None None None (TTestNot TEql) CAbsent false.
 Definition w_test_not := mk FFind 1 0 P0 (SList [0;1;2]) SNil None None None (TTestNot TEql) CAbsent false.
-(* (substitute 9 1 '(1 2) :test-not 'eql) => (9 2): the keyword is ignored *)
+(* (substitute 9 1 '(1 2) :test-not 'eql) => (1 9) (repaired: was (9 2), the keyword was ignored) *)
 Definition w_subst_test_not := mk FSubstitute 1 9 P0 (SList [1;2]) SNil None None None (TTestNot TEql) CAbsent false.
-(* (set-difference '(1 2) '(2) :test-not 'eql) => (1) *)
+(* (set-difference '(1 2) '(2) :test-not 'eql) => (2) (repaired: was (1)) *)
 Definition w_setdiff_test_not := mk FSetDifference 0 0 P0 (SList [1;2]) (SList [2]) None None None (TTestNot TEql) CAbsent false.
 (* (remove 1 '(1 2 1) :count nil) => (2) (repaired: was a type-error) *)
 Definition w_count_nil := mk FRemove 1 0 P0 (SList [1;2;1]) SNil None None None TDefault CNil false.
@@ -142,10 +142,15 @@ Definition w_remove_if_not := mk FRemoveIfNot 0 0 P0 (SList [0;1;2]) SNil None N
 Definition w_find_if_not := mk FFindIfNot 0 0 P0 (SVec [0;1;2]) SNil None None None TDefault CAbsent false.
 
 Definition refutation_witnesses : list call :=
-  [w_remove_if_not; w_find_if_not; w_member_test_not; w_subst_test_not; w_setdiff_test_not;
+  [w_remove_if_not; w_find_if_not; w_member_test_not;
    w_mismatch_from_end;
    w_fill_end; w_fill_start;
    w_reduce_empty; w_reduce_start; w_dups_from_end].
+
+(* set-difference is a relation in S: the repaired witness is judged by the checker *)
+Lemma setdiff_test_not_repaired :
+  in_domain w_setdiff_test_not = true /\ m_call w_setdiff_test_not = Some (RSeq [2]) /\ spec_ok w_setdiff_test_not (RSeq [2]) = true.
+Proof. vm_compute. repeat split; reflexivity. Qed.
 
 Lemma all_refuted : forallb refutes refutation_witnesses = true.
 Proof. vm_compute. reflexivity. Qed.
@@ -166,7 +171,8 @@ Definition repaired_witnesses : list (call * res) :=
     (w_mismatch_start, RInt 2); (w_replace_end, RSeq [9;9;3]);
     (w_reduce_start_init, RElt 7); (w_some_value, RElt 2); (w_assoc_order, RSeq [2;0]);
     (w_merge_tie, RSeq [-1;1]); (w_subst_count, RSeq [0;9;0;1]); (w_subst_count0, RSeq [1;1]);
-    (w_subst_count_neg, RSeq [1;1]); (w_dups_ne, RSeq [1]); (w_test_not, RElt 0) ].
+    (w_subst_count_neg, RSeq [1;1]); (w_dups_ne, RSeq [1]); (w_test_not, RElt 0);
+    (w_subst_test_not, RSeq [1;9]) ].
 Definition repaired_ok (cr : call * res) : bool :=
   in_domain (fst cr) &&
   match m_call (fst cr), s_call (fst cr) with
@@ -262,8 +268,8 @@ Proof. intros lt k W xs. split; [exact (isort_stable lt k W xs)|exact (stable_un
 Lemma reverse_loops : forall l, m_reverse_list l = rev l /\ go_reverse l = rev l.
 Proof. intros l. split; [exact (m_reverse_is_rev l)|exact (go_reverse_is_rev l)]. Qed.
 
-Lemma test_not_refuted : refutes w_member_test_not = true /\ refutes w_subst_test_not = true /\ refutes w_setdiff_test_not = true.
-Proof. vm_compute. repeat split; reflexivity. Qed.
+Lemma test_not_refuted : refutes w_member_test_not = true.
+Proof. vm_compute. reflexivity. Qed.
 Lemma if_not_missing_refuted : refutes w_remove_if_not = true /\ refutes w_find_if_not = true /\
   m_call w_remove_if_not = Some (RErr EUndefined) /\ s_call w_remove_if_not = Some (RSeq [0]) /\ s_call w_find_if_not = Some (RElt 1).
 Proof. vm_compute. repeat split; reflexivity. Qed.
